@@ -102,3 +102,12 @@ Definition spec_token_weight (t : stok) : Z :=
   | _ => 1
   end.
 Definition spec_token_count (ts : list stok) : Z := fold_left (fun a t => a + spec_token_weight t) ts 0.
+
+(* the rule Lua.get_token_count implements, stated on reference tokens: as above, and a number whose text
+   contains the byte 'e' counts 2 (picotool's reading of PICO-8 0.1.x; note that this includes 0x1e) *)
+Definition spec_token_weight_e (t : stok) : Z :=
+  match s_kind t with
+  | SNumber => if existsb (Z.eqb 101) (s_raw t) then 2 else 1
+  | _ => spec_token_weight t
+  end.
+Definition spec_token_count_e (ts : list stok) : Z := fold_left (fun a t => a + spec_token_weight_e t) ts 0.
